@@ -2,6 +2,7 @@ package e1
 
 import (
 	"fmt"
+	"os"
 	"sort"
 	"strings"
 
@@ -105,6 +106,7 @@ func MatchPattern(p, pkg, name string) bool {
 type BuildCfg struct {
 	EnableCache bool
 	Minimal     bool
+	FailFast    bool
 }
 
 // Predict classifies every selected target for the next build.
@@ -228,7 +230,18 @@ func (e *Env) Commit(p *Pred, o *Obs, cfg BuildCfg) {
 		delete(e.Taint, l)
 		delete(e.Pending, l)
 		e.LastViews[l] = append([]spec.DepView{}, st.Views...)
-		if cfg.EnableCache && !t.HasTag("no-cache") {
+		// A result written by a cache-disabled build carries an output hash of a different
+		// flavour; dependants keyed on it are not fixed by the documented rules either.
+		depUnsure := false
+		for _, d := range st.DirectDeps {
+			if e.Unsure[d] {
+				depUnsure = true
+			}
+		}
+		if !t.HasTag("no-cache") {
+			e.Unsure[l] = !cfg.EnableCache
+		}
+		if cfg.EnableCache && !t.HasTag("no-cache") && !(cfg.FailFast && p.ExpectFail) && !depUnsure {
 			e.Memo[st.LooseKey] = "ok"
 			e.Strict[st.StrictKey] = true
 		} else {
@@ -256,6 +269,9 @@ func (e *Env) Judge(p *Pred, o *Obs, cfg BuildCfg, extCause string) []Violation 
 		k := "slow"
 		if o.Res.Hang {
 			k = "hang"
+		}
+		if os.Getenv("VERIF_DEBUG") != "" {
+			_ = os.WriteFile("/var/tmp/verif-last-hang-dump.txt", []byte(o.Res.Dump), 0644)
 		}
 		vs = append(vs, Violation{k, k + " " + hangSite(o.Res.Dump), "grog did not exit within the cap"})
 		return vs
@@ -293,7 +309,7 @@ func (e *Env) Judge(p *Pred, o *Obs, cfg BuildCfg, extCause string) []Violation 
 					fmt.Sprintf("%s executed although a result for its current state is cached and nothing forces execution (cause applied by the harness: %s)", l, cause)})
 			}
 		case MustExec:
-			if c == 0 {
+			if c == 0 && !(cfg.FailFast && p.ExpectFail) {
 				vs = append(vs, Violation{"exec", fmt.Sprintf("missing-exec reason=%s cause=%s", p.Reason[l], cause),
 					fmt.Sprintf("%s was not executed although the model requires it (%s; cause: %s)", l, p.Reason[l], cause)})
 			}
@@ -472,7 +488,10 @@ func crashSite(stderr, first string) string {
 	for _, line := range strings.Split(stderr, "\n") {
 		line = strings.TrimSpace(line)
 		if strings.HasPrefix(line, "grog/internal/") {
-			fn := strings.SplitN(line, "(", 2)[0]
+			fn := line
+			if i := strings.LastIndex(line, "("); i > 0 {
+				fn = line[:i]
+			}
 			return kind + " site=" + strings.TrimPrefix(fn, "grog/internal/")
 		}
 	}
@@ -489,7 +508,10 @@ func hangSite(dump string) string {
 		for _, line := range strings.Split(b, "\n") {
 			line = strings.TrimSpace(line)
 			if strings.HasPrefix(line, "grog/internal/") && !strings.Contains(line, "console") {
-				fn := strings.SplitN(line, "(", 2)[0]
+				fn := line
+				if i := strings.LastIndex(line, "("); i > 0 {
+					fn = line[:i]
+				}
 				if strings.Contains(fn, "cmds.") || strings.Contains(fn, "Executor).Execute") {
 					continue
 				}
